@@ -6,7 +6,8 @@
 //!   obs   = 0: print the abstract trace (what the Coq model reproduces); 1: print the concrete
 //!           observation (responses, solo responses, ...) for the oracle
 //!   prog  = view grammar, see `build`
-//!   sched = coarse: ((0 r) | (1 r g) | (2 r) | (3 r)) ...   (start / fire gate / run / finish)
+//!   sched = coarse: ((0 r) | (1 r g) | (2 r) | (3 r) | (4 r)) ...   (start / fire gate / run / finish /
+//!                   create = build_response only, first poll later)
 //!           fine  : (n n n ...)  each n picks (mod the number of enabled actions) the next single
 //!                   task poll / gate completion / request start
 //!
@@ -468,6 +469,11 @@ async fn from_app_equiv(
     scope_body: bool,
 ) -> PinnedStream {
     let (owner, stream) = build_response_equiv(app_fn, additional_context, stream_builder, scope_body);
+    from_app_rest(owner, stream).await
+}
+
+/// what `from_app` does with the result of `build_response` (meta injection left out)
+async fn from_app_rest(owner: Owner, stream: PinnedFuture<PinnedStream>) -> PinnedStream {
     let sc = owner.shared_context().unwrap();
     let stream = stream.await.ready_chunks(32).map(|n| n.join(""));
     while let Some(pending) = sc.await_deferred() {
@@ -504,6 +510,14 @@ mod real {
         }
         fn extend_response(&mut self, _: &()) {}
         fn set_default_content_type(&mut self, _: &str) {}
+    }
+    /// the public `build_response`, called synchronously when the request is *created*
+    pub fn build_response_real(
+        app_fn: impl FnOnce() -> AnyView + Send + 'static,
+        additional_context: impl FnOnce() + Send + 'static,
+        stream_builder: fn(AnyView, Box<dyn FnOnce() -> PinnedStream + Send>, bool) -> PinnedFuture<PinnedStream>,
+    ) -> (Owner, PinnedFuture<PinnedStream>) {
+        leptos_integration_utils::build_response(app_fn, additional_context, stream_builder, false)
     }
     pub async fn from_app_real(
         app_fn: impl FnOnce() -> AnyView + Send + 'static,
@@ -548,7 +562,9 @@ impl Req {
         matches!(self.main, Main::Done)
     }
 
-    fn start(&mut self, o: &Opts) {
+    /// `split`: build_response runs now (root owner created, nothing polled); the rest of
+    /// from_app is the handler future. Otherwise everything happens at the first poll.
+    fn start(&mut self, o: &Opts, split: bool) {
         let idx = self.idx;
         let n = (max_gate(&self.prog) + 1) as usize + 1;
         let mut rxs = vec![];
@@ -587,6 +603,17 @@ impl Req {
         };
         let sbld = stream_builder_for(o.ooo);
         let fut: Pin<Box<dyn Future<Output = PinnedStream>>> = match o.pipeline {
+            #[cfg(feature = "sandboxed")]
+            1 if split => {
+                let (owner, stream) = real::build_response_real(app_fn, additional_context, sbld);
+                W.with(|w| w.borrow_mut().roots.push((owner.debug_id(), idx)));
+                Box::pin(from_app_rest(owner, stream))
+            }
+            _ if split => {
+                let (owner, stream) = build_response_equiv(app_fn, additional_context, sbld, o.pipeline != 2);
+                W.with(|w| w.borrow_mut().roots.push((owner.debug_id(), idx)));
+                Box::pin(from_app_rest(owner, stream))
+            }
             #[cfg(feature = "sandboxed")]
             1 => Box::pin(real::from_app_real(app_fn, additional_context, sbld)),
             2 => Box::pin(from_app_equiv(app_fn, additional_context, sbld, false)),
@@ -705,6 +732,7 @@ enum Act {
     Finish(usize),
     PollMain(usize),
     PollTask(usize, usize), // request, local task number
+    Create(usize),          // build_response only; the first poll comes later
 }
 
 struct RunOut {
@@ -733,8 +761,17 @@ fn apply(reqs: &mut [Req], o: &Opts, a: &Act, allow_final: bool) -> bool {
                 return false;
             }
             set_cur(r);
-            reqs[r - 1].start(o);
+            reqs[r - 1].start(o, false);
             reqs[r - 1].poll_main();
+            set_cur(0);
+            true
+        }
+        Act::Create(r) => {
+            if reqs[r - 1].started() {
+                return false;
+            }
+            set_cur(r);
+            reqs[r - 1].start(o, true);
             set_cur(0);
             true
         }
@@ -792,6 +829,7 @@ fn enabled(reqs: &[Req], active: &[usize]) -> (Vec<Act>, Vec<Act>) {
         let q = &reqs[r - 1];
         if !q.started() {
             run.push(Act::Start(r));
+            run.push(Act::Create(r));
             continue;
         }
         if !q.finished() && q.flag.0.load(Ordering::SeqCst) {
@@ -828,7 +866,7 @@ fn run_world(progs: &[Sexp], active: &[usize], o: &Opts, plan: Plan) -> RunOut {
         Plan::Coarse(sched) => {
             for a in sched {
                 let r = match *a {
-                    Act::Start(r) | Act::Fire(r, _) | Act::Run(r) | Act::Finish(r) => r,
+                    Act::Start(r) | Act::Fire(r, _) | Act::Run(r) | Act::Finish(r) | Act::Create(r) => r,
                     _ => 0,
                 };
                 if r == 0 || r > n || !active.contains(&r) {
@@ -925,6 +963,7 @@ fn parse_coarse(s: &Sexp) -> Vec<Act> {
                 1 => Act::Fire(r, a.at(2).num().max(0) as usize),
                 2 => Act::Run(r),
                 3 => Act::Finish(r),
+                4 => Act::Create(r),
                 _ => return None,
             })
         })
@@ -985,7 +1024,7 @@ fn run_case(c: &Sexp) -> Sexp {
             .acts
             .iter()
             .filter(|a| match a {
-                Act::Start(x) | Act::Fire(x, _) | Act::Run(x) | Act::Finish(x) | Act::PollMain(x) | Act::PollTask(x, _) => *x == r,
+                Act::Start(x) | Act::Fire(x, _) | Act::Run(x) | Act::Finish(x) | Act::PollMain(x) | Act::PollTask(x, _) | Act::Create(x) => *x == r,
             })
             .cloned()
             .collect();
